@@ -12,7 +12,7 @@
 EXTENDS Integers, Sequences, FiniteSets, TLC
 
 DocumentedKeys == {"no-document", "validation", "calculation", "marshal", "unmarshal", "signature", "digest", "internal", "unknown-schema"}
-Pipeline == <<"Parse", "ValidateRaw", "Calculate", "Validate", "Digest", "Sign", "Verify", "Correct", "CorrectCopy", "CorrectData", "OptionsSchema",
+Pipeline == <<"Parse", "ValidateRaw", "Calculate", "Validate", "Digest", "Sign", "Verify", "VerifyPartly", "Correct", "CorrectCopy", "CorrectData", "OptionsSchema",
               "Replicate", "Marshal">>
 
 \* a return is acceptable iff it is a result or a keyed error
